@@ -1980,6 +1980,15 @@ func stagedInts(src *Val) []*Val {
 				return nil
 			}
 			this := &Val{Op: "intbytes", Name: ord.o, Args: []*Val{src.Args[1]}, Type: it}
+			// AppendUint32(b, math.Float32bits(x)): the float x in its IEEE 754 bits – what binary.Write(x) renders
+			if fb := stripCT(src.Args[1]); fb != nil && fb.Op == "call" && len(fb.Args) == 1 {
+				switch {
+				case fb.Name == "math.Float32bits" && it == types.Typ[types.Uint32]:
+					this = &Val{Op: "intbytes", Name: ord.o, Args: []*Val{fb.Args[0]}, Type: types.Typ[types.Float32]}
+				case fb.Name == "math.Float64bits" && it == types.Typ[types.Uint64]:
+					this = &Val{Op: "intbytes", Name: ord.o, Args: []*Val{fb.Args[0]}, Type: types.Typ[types.Float64]}
+				}
+			}
 			first := stripCT(src.Args[0])
 			if first.IsNilConst() || first.Op == "availbuf" || (first.Op == "makeslice" && isZero(first.Args[0])) || (first.Op == "slice" && first.Args[2] != nil && isZero(first.Args[2])) {
 				return []*Val{this}
